@@ -12,7 +12,7 @@ use crate::scen_life::Lifecycle;
 use crate::scen_misc::{Codec, HeaderFaults, HeaderRandom, Rejections};
 use crate::scen_spill::SpillUtil;
 use crate::scen_stream::{Fragmentation, SyncAsync};
-use crate::scen_write::{Canonical, StartPos, TornWrite};
+use crate::scen_write::{Canonical, StartPos, StartPosDirs, TornWrite};
 
 pub const ALL: &[&str] = &["C01", "C02", "C03", "C04", "C06", "C08", "C09", "C10", "C11", "C12", "C13", "C14", "C15", "C16", "C17", "C18", "C19", "C20"];
 
@@ -36,7 +36,7 @@ pub fn plan(prop: &str, tier: Tier) -> Option<Plan> {
         "C01" => ("C01", "exploration", vec![b(Lifecycle { prop: "C01", huge_pct: 1, window_pct: 1 }, 12_000, 300_000, t)]),
         "C02" => {
             assumptions.push("validator written from the v3 specification text; shares no code with the crate".into());
-            ("C02", "exploration", vec![b(Lifecycle { prop: "C02", huge_pct: 2, window_pct: 5 }, 10_000, 300_000, t)])
+            ("C02", "exploration", vec![b(Lifecycle { prop: "C02", huge_pct: 2, window_pct: 5 }, 10_000, 300_000, t), b(History { prop: "C02" }, 10_000, 600_000, t)])
         }
         "C10" => {
             assumptions.push("64-bit content-hash collisions among generated contents are assumed not to occur".into());
@@ -67,7 +67,7 @@ pub fn plan(prop: &str, tier: Tier) -> Option<Plan> {
             assumptions.push("each write call is atomic (transfers are never split in this scenario), as the property states; the stream is fresh".into());
             ("C17", "fault_enumeration", vec![b(TornWrite, 1200, 60_000, t)])
         }
-        "C18" => ("C18", "exploration", vec![b(StartPos, 6000, 300_000, t)]),
+        "C18" => ("C18", "exploration", vec![b(StartPos, 6000, 300_000, t), b(StartPosDirs, 500, 40_000, t)]),
         "C09" => {
             assumptions.push("the exhaustive sweep over all 2^32 stored coordinate values is not attempted (that is enumeration, not simulation); stored values are sampled incl. boundaries".into());
             ("C09", "exploration", vec![b(HeaderFaults, 0, 0, t), b(HeaderRandom, 400_000, 100_000_000, t)])
